@@ -207,7 +207,8 @@ def main():
   # ---------------- str(q) direction ----------------
   probes = [tf.constant(rng.normal(0, 1, size=(4, 6)).astype(np.float32)),
             tf.constant(np.linspace(-3, 3, 24, dtype=np.float32).reshape(4, 6))]
-  n_str = n_same = n_np = 0
+  n_str = n_same = n_np = n_long = 0
+  LONG_KEYS = ("alpha", "threshold", "temperature", "relu_upper_bound", "u", "max_value")
   for cls_name in c09.LATTICE:
     cls = getattr(Q, cls_name)
     for kw in c09.instances(cls_name, rep.tier, rng):
@@ -234,6 +235,26 @@ def main():
           if not ([k for k in nondef if k in STR_OMITS.get(cls_name, [])] or [k for k in nondef if k in SLOT_CLASSES.get(cls_name, [])]):
             rep.violation(f"str-numpy-scalar-raises-{desc}", f"{desc} built with numpy scalar option values: str / get_quantizer raised {type(e).__name__}: {str(e)[:160]}",
                           {"class": cls_name, "kwargs": str(kw)})
+      # numeric options that need many digits (a scale that went through float32, 1/3, ...): the text must carry the value exactly
+      long_keys = [k for k, v in c09.materialize(kw).items() if isinstance(v, float) and k in LONG_KEYS and k in nondef]
+      long_kw = {k: (float(np.float32(v) / np.float32(3)) if k in long_keys else v) for k, v in c09.materialize(kw).items()}
+      if long_keys:
+        try:
+          ql = cls(**long_kw)
+          tl = str(ql)
+          q2l = Q.get_quantizer(tl)
+          n_long += 1
+          if cls_name == "bernoulli":
+            differs = any(getattr(q2l, a) != getattr(ql, a) for a in ("alpha", "temperature", "use_real_sigmoid"))
+          else:
+            differs = any(env.f2b(ql(p_).numpy()) != env.f2b(q2l(p_).numpy()) for p_ in probes)
+          if differs and not ([k for k in nondef if k in STR_OMITS.get(cls_name, [])] or [k for k in nondef if k in SLOT_CLASSES.get(cls_name, [])]):
+            rep.violation(f"str-roundtrip-long-literal-{desc}", f"{desc} with many-digit option values {({k: long_kw[k] for k in long_keys})} "
+                          f"prints '{tl}', which re-parses to a quantizer computing a different function", {"class": cls_name, "kwargs": str(long_kw), "text": tl})
+        except Exception as e:  # pylint: disable=broad-except
+          if not ([k for k in nondef if k in STR_OMITS.get(cls_name, [])] or [k for k in nondef if k in SLOT_CLASSES.get(cls_name, [])]):
+            rep.violation(f"str-long-literal-raises-{desc}", f"{desc} with many-digit option values: constructor / str / get_quantizer raised {type(e).__name__}: {str(e)[:160]}",
+                          {"class": cls_name, "kwargs": str(long_kw)})
       n_str += 1
       rep.count((cls_name, tuple(sorted((k, str(v)) for k, v in kw.items()))))
       explained = [f"C10-str-omits-{cls_name}-{k}" for k in nondef if k in STR_OMITS.get(cls_name, [])]
@@ -273,7 +294,7 @@ def main():
       else:
         rep.violation(f"str-roundtrip-{desc}", f"{desc} prints '{text}', which re-parses to a quantizer computing a different function",
                       {"class": cls_name, "kwargs": str(kw), "text": text})
-  rep.note(str_direction=dict(instances=n_str, same_function=n_same, instances_with_numpy_scalar_options=n_np))
+  rep.note(str_direction=dict(instances=n_str, same_function=n_same, instances_with_numpy_scalar_options=n_np, instances_with_many_digit_options=n_long))
   rep.assumptions += ["pyparsing's tokenisation is modelled by Parse/SafeEval.v tokenize (split at commas, key [^=,)\\s]+, value [^,)]*) and compared on every generated string",
                       "float literals are compared as tokens in Coq and by Python float() equality in the harness",
                       "the generated grammar has no blank before a comma: a keyword value followed by blanks keeps them (e.g. 'True ' is not recognised as a bool) -- outside the claimed literal grammar",
